@@ -332,6 +332,8 @@ func TestC14Records(t *testing.T) {
 			tab.Tree = fmtb.TreeOpts{LeafCells: lc, Fanout: rapid.SampledFrom([]int{0, 2, 3}).Draw(t, "fanout")}
 			wr.Tree = tab.Tree
 			img := bt.Image{PageSize: u, Layout: genLayout(t), Tables: []bt.Table{tab, wr}}
+			// page 1 as an interior page without a key (see fmtb.TreeOpts)
+			img.Master.KeylessRoot = rapid.IntRange(0, 5).Draw(t, "keylessroot") == 0
 			if rapid.IntRange(0, 4).Draw(t, "stalesize") == 0 {
 				// the in-header size is out of date and marked so (a writer older
 				// than SQLite 3.7.0 appended to the file): spilled payloads lie
@@ -383,13 +385,13 @@ func TestC14Records(t *testing.T) {
 				fmt.Sprintf("rec:ps=%d", s.Img.PageSize), fmt.Sprintf("rec:overflow=%v", overflow), fmt.Sprintf("rec:widehdr=%v", widehdr),
 				fmt.Sprintf("rec:padded-varints=%v", padded), fmt.Sprintf("rec:depth=%d", built.Tables["t"].Shape.Depth), fmt.Sprintf("rec:idxdepth=%d", built.Tables["w"].IShape.Depth),
 				fmt.Sprintf("rec:in-header-size-stale=%v", s.Img.Header.StaleSize > 0), fmt.Sprintf("rec:text-not-utf8=%v", badText),
-				fmt.Sprintf("rec:autovacuum=%d", s.Img.Layout.AutoVacuum), fmt.Sprintf("rec:autovacuum-beyond-second-map-page=%v", s.Img.Layout.AutoVacuum > 0 && built.Pages > s.Img.PageSize/5+3))
+				fmt.Sprintf("rec:autovacuum=%d", s.Img.Layout.AutoVacuum), fmt.Sprintf("rec:page1-interior-without-key=%v", s.Img.Master.KeylessRoot), fmt.Sprintf("rec:autovacuum-beyond-second-map-page=%v", s.Img.Layout.AutoVacuum > 0 && built.Pages > s.Img.PageSize/5+3))
 			if problem, sig := compare(built); problem != "" {
 				report(r, t, s, built, problem, sig)
 				return
 			}
 			// sampled cross validation of the builder itself
-			if vt.Sampled(s, 8) || ((s.Img.Header.StaleSize > 0 || s.Img.Layout.AutoVacuum > 0) && vt.Sampled(s, 2)) {
+			if vt.Sampled(s, 8) || ((s.Img.Header.StaleSize > 0 || s.Img.Layout.AutoVacuum > 0 || s.Img.Master.KeylessRoot) && vt.Sampled(s, 2)) {
 				diff, err := bt.SQLiteAgrees(env.O, env.Dir, built)
 				if err != nil {
 					r.Harness(t, "cross validation: %v", err)
